@@ -628,6 +628,16 @@ func (o *orbitDB) Open(ctx context.Context, dbAddress string, options *CreateDBO
 		return nil, fmt.Errorf("unable to create store: %w", err)
 	}
 
+	// the database exists locally from now on, whether it was created here or
+	// obtained from a peer: a later local-only Open must find it, and a Create
+	// over it must be refused unless overwrite is requested
+	if !haveDB {
+		if err := o.addManifestToCache(ctx, directory, parsedDBAddress); err != nil {
+			_ = store.Close()
+			return nil, fmt.Errorf("unable to add manifest to cache: %w", err)
+		}
+	}
+
 	return store, nil
 }
 
